@@ -21,6 +21,10 @@ void vp_intent_shared(int on) noexcept;     // the acquisition this thread is ab
 int vp_hist_begin(int kind, int a1, int a2) noexcept;   // linearizability history (C15); kinds: 0 load 1 store 2 xchg 3 cas
 void vp_hist_end(int idx, int r1, int r2) noexcept;
 void vp_lin_check(int init) noexcept;
+void vp_tab_add(int table, const void* p) noexcept;   // exactly-once tables: 0 = live objects, 1 = allocated blocks
+void vp_tab_del(int table, const void* p) noexcept;   // asserts that p is in the table
+int vp_tab_count(int table) noexcept;
+int vp_tab_has(int table, const void* p) noexcept;
 void vp_cover(int bit) noexcept;           // witness coverage bits
 void vp_log(int tag, int v) noexcept;      // observation log (translation validation)
 int vp_mutex_owner(const void* m) noexcept;     // model state of a pthread mutex: 0 free, else owner id + 1
